@@ -150,6 +150,11 @@ frg::expected<format_error> printf_format(A agent, const char *s, va_struct *vsp
 			++s;
 			FRG_ASSERT(*s);
 			opts.minimum_width = pop_arg<int>(vsp, &opts);
+			// A negative field width argument is a '-' flag followed by a positive width.
+			if(opts.minimum_width < 0) {
+				opts.left_justify = true;
+				opts.minimum_width = opts.minimum_width == -__INT_MAX__ - 1 ? __INT_MAX__ : -opts.minimum_width;
+			}
 		}else{
 			int w = 0;
 			while(*s >= '0' && *s <= '9') {
@@ -168,7 +173,10 @@ frg::expected<format_error> printf_format(A agent, const char *s, va_struct *vsp
 			if(*s == '*') {
 				++s;
 				FRG_ASSERT(*s);
-				opts.precision = pop_arg<int>(vsp, &opts);
+				// A negative precision argument is taken as if the precision were omitted.
+				int p = pop_arg<int>(vsp, &opts);
+				if(p >= 0)
+					opts.precision = p;
 			}else{
 				int value = 0;
 				// If no integer follows the '.', then precision is taken to be zero
@@ -319,6 +327,9 @@ void do_printf_chars(S &sink, char t, format_options opts,
 template<Sink S>
 void do_printf_ints(S &sink, char t, format_options opts,
 		printf_size_mod szmod, va_struct *vsp, locale_options locale_opts = {}) {
+	// For the integer conversions the '0' flag is ignored if a precision is given.
+	// The '+' and ' ' flags apply to the signed conversions only.
+	const char padding = (opts.fill_zeros && !opts.precision) ? '0' : ' ';
 	switch(t) {
 	case 'd':
 	case 'i': {
@@ -340,29 +351,19 @@ void do_printf_ints(S &sink, char t, format_options opts,
 			FRG_ASSERT(szmod == printf_size_mod::default_size);
 			number = pop_arg<int>(vsp, &opts);
 		}
-		if(opts.precision && *opts.precision == 0 && !number) {
-			// print nothing in this case
-		}else{
-			_fmt_basics::print_int(sink, number, 10, opts.minimum_width,
-					opts.precision ? *opts.precision : 1, opts.fill_zeros ? '0' : ' ',
-					opts.left_justify, opts.group_thousands, opts.always_sign,
-					opts.plus_becomes_space, false, locale_opts);
-		}
+		_fmt_basics::print_int(sink, number, 10, opts.minimum_width,
+				opts.precision ? *opts.precision : 1, padding,
+				opts.left_justify, opts.group_thousands, opts.always_sign,
+				opts.plus_becomes_space, false, locale_opts);
 	} break;
 	case 'b':
 	case 'B' : {
 		auto print = [&] (auto number) {
-			if (number && opts.alt_conversion)
-				sink.append(t == 'b' ? "0b" : "0B");
-
-			if(opts.precision && *opts.precision == 0 && !number) {
-				// print nothing in this case
-			}else{
-				_fmt_basics::print_int(sink, number, 2, opts.minimum_width,
-						opts.precision ? *opts.precision : 1, opts.fill_zeros ? '0' : ' ',
-						opts.left_justify, false, opts.always_sign, opts.plus_becomes_space,
-						false, locale_opts);
-			}
+			const char *prefix = (number && opts.alt_conversion) ? (t == 'b' ? "0b" : "0B") : "";
+			_fmt_basics::print_int(sink, number, 2, opts.minimum_width,
+					opts.precision ? *opts.precision : 1, padding,
+					opts.left_justify, false, false, false,
+					false, locale_opts, prefix);
 		};
 
 		if(szmod == printf_size_mod::char_size) {
@@ -384,17 +385,19 @@ void do_printf_ints(S &sink, char t, format_options opts,
 	} break;
 	case 'o': {
 		auto print = [&] (auto number) {
-			if (number && opts.alt_conversion)
-				sink.append('0');
-
-			if(opts.precision && *opts.precision == 0 && !number) {
-				// print nothing in this case
-			}else{
-				_fmt_basics::print_int(sink, number, 8, opts.minimum_width,
-						opts.precision ? *opts.precision : 1, opts.fill_zeros ? '0' : ' ',
-						opts.left_justify, false, opts.always_sign, opts.plus_becomes_space,
-						false, locale_opts);
+			int precision = opts.precision ? *opts.precision : 1;
+			if (opts.alt_conversion) {
+				// '#' raises the precision if and only if that is needed to make the first digit a zero.
+				int num_digits = 0;
+				for (auto v = number; v; v /= 8)
+					num_digits++;
+				if (precision <= num_digits)
+					precision = num_digits + 1;
 			}
+			_fmt_basics::print_int(sink, number, 8, opts.minimum_width,
+					precision, padding,
+					opts.left_justify, false, false, false,
+					false, locale_opts);
 		};
 
 		if(szmod == printf_size_mod::char_size) {
@@ -417,17 +420,11 @@ void do_printf_ints(S &sink, char t, format_options opts,
 	case 'x':
 	case 'X': {
 		auto print = [&] (auto number) {
-			if (number && opts.alt_conversion)
-				sink.append(t == 'x' ? "0x" : "0X");
-
-			if(opts.precision && *opts.precision == 0 && !number) {
-				// print nothing in this case
-			}else{
-				_fmt_basics::print_int(sink, number, 16, opts.minimum_width,
-						opts.precision ? *opts.precision : 1, opts.fill_zeros ? '0' : ' ',
-						opts.left_justify, false, opts.always_sign, opts.plus_becomes_space,
-						t == 'X', locale_opts);
-			}
+			const char *prefix = (number && opts.alt_conversion) ? (t == 'x' ? "0x" : "0X") : "";
+			_fmt_basics::print_int(sink, number, 16, opts.minimum_width,
+					opts.precision ? *opts.precision : 1, padding,
+					opts.left_justify, false, false, false,
+					t == 'X', locale_opts, prefix);
 		};
 
 		if(szmod == printf_size_mod::char_size) {
@@ -450,14 +447,10 @@ void do_printf_ints(S &sink, char t, format_options opts,
 	case 'u': {
 		auto print = [&] (auto number) {
 			FRG_ASSERT(!opts.alt_conversion);
-			if(opts.precision && *opts.precision == 0 && !number) {
-				// print nothing in this case
-			}else{
-				_fmt_basics::print_int(sink, number, 10, opts.minimum_width,
-						opts.precision ? *opts.precision : 1, opts.fill_zeros ? '0' : ' ',
-						opts.left_justify, opts.group_thousands, opts.always_sign,
-						opts.plus_becomes_space, false, locale_opts);
-			}
+			_fmt_basics::print_int(sink, number, 10, opts.minimum_width,
+					opts.precision ? *opts.precision : 1, padding,
+					opts.left_justify, opts.group_thousands, false,
+					false, false, locale_opts);
 		};
 
 		if(szmod == printf_size_mod::char_size) {
